@@ -72,6 +72,22 @@ pub(crate) fn mask_sigttou() -> Result<(), error::Error> {
     Ok(())
 }
 
+/// Makes the process ignore `SIGPIPE` (the state the shell runs in: a write to a closed pipe
+/// is reported to the writer as an error instead of killing the whole shell).
+pub fn ignore_sigpipe() -> Result<(), error::Error> {
+    let ignore = nix::sys::signal::SigAction::new(
+        nix::sys::signal::SigHandler::SigIgn,
+        nix::sys::signal::SaFlags::empty(),
+        nix::sys::signal::SigSet::empty(),
+    );
+
+    // SAFETY:
+    // No handler function is installed; we only ask the OS to ignore the signal.
+    unsafe { nix::sys::signal::sigaction(nix::sys::signal::Signal::SIGPIPE, &ignore) }?;
+
+    Ok(())
+}
+
 pub(crate) fn poll_for_stopped_children() -> Result<bool, error::Error> {
     let mut found_stopped = false;
 
